@@ -66,7 +66,8 @@ def classify_call(t):
     for pat, rsub, desc in PANIC_API:
         if desc is None:
             continue
-        if callee == pat and (rsub is None or rsub in res):
+        # a foreign item can be named through a re-export (`elliptic_curve::generic_array::GenericArray::..`)
+        if (callee == pat or callee.endswith("::" + pat)) and (rsub is None or rsub in res):
             return desc
     return None
 
